@@ -160,6 +160,10 @@ fn c18_stark_malformed() {
         muts.push(("truncated quotient openings", Box::new(|p| { if let Some(q) = p.proof.openings.quotient_polys.as_mut() { q.pop(); } })));
         muts.push(("auxiliary openings present", Box::new(|p| p.proof.openings.auxiliary_polys = Some(vec![FE::ZERO]))));
         muts.push(("ctl_zs_first present", Box::new(|p| p.proof.openings.ctl_zs_first = Some(vec![F::ZERO]))));
+        muts.push(("empty auxiliary openings present (Some of an empty vector)", Box::new(|p| p.proof.openings.auxiliary_polys = Some(vec![]))));
+        muts.push(("empty auxiliary next-row openings present (Some of an empty vector)", Box::new(|p| p.proof.openings.auxiliary_polys_next = Some(vec![]))));
+        muts.push(("both auxiliary opening vectors present and empty", Box::new(|p| { p.proof.openings.auxiliary_polys = Some(vec![]); p.proof.openings.auxiliary_polys_next = Some(vec![]); })));
+        muts.push(("empty ctl_zs_first present", Box::new(|p| p.proof.openings.ctl_zs_first = Some(vec![]))));
         muts.push(("auxiliary cap present", Box::new(|p| p.proof.auxiliary_polys_cap = Some(p.proof.trace_cap.clone()))));
         muts.push(("quotient cap removed", Box::new(|p| p.proof.quotient_polys_cap = None)));
         muts.push(("trace cap with 3 entries", Box::new(|p| { p.proof.trace_cap.0.truncate(3); })));
@@ -477,6 +481,24 @@ fn c04_stark_transcript() {
             }
             { let mut p2 = with_aux.clone(); p2.proof.auxiliary_polys_cap = None; cases += 1;
               if let Some(c2) = chal2(&p2) { if c2[0] == b2[0] || c2[1] == b2[1] { bad.push(format!("lookup challenges {mode}: auxiliary cap removed: alphas / zeta unchanged")); } } }
+        }
+    }
+    // the stand-alone prover's transcript is the full one: the honest proof verifies against challenges derived with every commitment absorbed (trace cap
+    // included, ignore_trace_cap = false), and not against challenges derived without the trace cap
+    {
+        use crate::verifier::verify_stark_proof_with_challenges;
+        for ignore in [false, true] {
+            let r = catch_unwind(AssertUnwindSafe(|| {
+                let mut ch = Challenger::<F, PoseidonHash>::new();
+                let c = proof.get_challenges(&stark, &mut ch, None, None, ignore, &config, None);
+                verify_stark_proof_with_challenges::<F, C, Fib<F, D>, D>(&stark, &proof.proof, &c, None, &proof.public_inputs, &config).is_ok()
+            }));
+            cases += 1;
+            match (ignore, r) {
+                (false, Ok(true)) | (true, Ok(false)) | (true, Err(_)) => {}
+                (false, _) => bad.push("the proof of the stand-alone prover does not verify under the transcript that absorbs the trace cap: prover and verifier leave the trace commitment out of the transcript".into()),
+                (true, Ok(true)) => bad.push("the proof of the stand-alone prover verifies under challenges derived WITHOUT the trace cap".into()),
+            }
         }
     }
     // the FRI reduction strategy, with its parameters, is part of the statement: configurations that differ only there must not share challenges
